@@ -85,6 +85,7 @@ I = r"i(8|16|32|64|128|size)"
 #   inst    how the instantiating types are listed in an invocation: "list" = `pre; t1, t2, ..`, "arrows" = `pre; n1 -> t1, ..`
 #   pre     the arguments before the `;` of every invocation (white space removed)
 #   selfty  what `Self` / `self` is in the impl
+#   others  regex of further instantiating types that are tolerated but NOT covered by the generated function
 #   within  the header of the impl block every invocation must sit in (macros that define methods taking `self`)
 #   calls   Rust callee `<$int>::name` / method `$name` -> coq name of the TARGET that is its translation
 TARGETS = [
@@ -122,6 +123,9 @@ TARGETS = [
     dict(coq="bint_from_uint", group="C13", path="src/bint/convert.rs", macro="from_uint",
          head="($BInt: ident, $BUint: ident; $($from: tt), *)", anchor="impl<const N: usize> From<$from> for $BInt<N>",
          fn="from", prim="$from", kinds=U, conv="value", inst="list", pre="$BInt,$BUint", selfty="bint", calls={}),
+    dict(coq="bint_from_prim", group="C09", path="src/bint/cast.rs", macro="as_bint",
+         head="($BInt: ident, $BUint: ident; $($ty: ty), *)", anchor="impl<const N: usize> CastFrom<$ty> for $BInt<N>",
+         fn="cast_from", prim="$ty", kinds=UI, others="bool|char", conv="value", inst="list", pre="$BInt,$BUint", selfty="bint", calls={}),
     dict(coq="try_from_iint", group="C13", path="src/buint/convert.rs", macro="try_from_iint",
          head="($BUint: ident; $($int: tt -> $uint: tt),*)", anchor="impl<const N: usize> TryFrom<$int> for $BUint<N>",
          fn="try_from", prim="$int", prim2="$uint", kinds=I, conv="value", inst="pairs", pre="$BUint", selfty="buint", calls={}),
@@ -129,6 +133,10 @@ TARGETS = [
          fn="from_u64", prim="u64", pbfix=64, conv="value", selfty="buint", calls={}),
     dict(coq="U_from_u128", group="C19", path="src/buint/numtraits.rs", macro=None, anchor="impl<const N: usize> FromPrimitive for $BUint<N>",
          fn="from_u128", prim="u128", pbfix=128, conv="value", selfty="buint", calls={}),
+    dict(coq="U_from_i64", group="C19", path="src/buint/numtraits.rs", macro=None, anchor="impl<const N: usize> FromPrimitive for $BUint<N>",
+         fn="from_i64", prim="i64", prim2="u64", pbfix=64, conv="value", selfty="buint", calls={"Self::from_u64": "U_from_u64"}),
+    dict(coq="U_from_i128", group="C19", path="src/buint/numtraits.rs", macro=None, anchor="impl<const N: usize> FromPrimitive for $BUint<N>",
+         fn="from_i128", prim="i128", prim2="u128", pbfix=128, conv="value", selfty="buint", calls={"Self::from_u128": "U_from_u128"}),
     dict(coq="I_from_uint", group="C19", path="src/bint/numtraits.rs", macro="from_uint",
          head="($Digit: ident; $uint: ty, $name: ident)", anchor=None, within="impl<const N: usize> FromPrimitive for $BInt<N>",
          fn="$name", prim="$uint", kinds=U, conv="value", inst="single", fnprefix="from_", pre="$Digit", selfty="bint", calls={}),
@@ -148,6 +156,8 @@ EXT = {
 }
 GROUPS = {}
 for _t in TARGETS:
+    if _t.get("pbfix"):          # a fn for one concrete type: the type names must say that width
+        assert re.fullmatch(r"[ui]%d" % _t["pbfix"], _t["prim"]) and _t.get("prim2", "u%d" % _t["pbfix"]) == "u%d" % _t["pbfix"]
     GROUPS.setdefault(_t["group"], []).append(_t["coq"])
 
 
@@ -206,6 +216,44 @@ class CP(L.LP):
             return ["expr", e]
         return L.LP.stmt(self)
 
+    def match_(self):
+        """L.LP.match_ + the patterns Ok(x) and Err(_) (a match on a Result)"""
+        j, d = self.i + 1, 0                                   # look ahead: does an arm start with Ok( / Err( ?
+        while j < len(self.t) and not (self.t[j] == "{" and d == 0):
+            d += {"(": 1, ")": -1}.get(self.t[j], 0)
+            j += 1
+        if j + 1 >= len(self.t) or self.t[j + 1] not in ("Ok", "Err"):
+            return L.LP.match_(self)
+        self.eat("match")
+        scrut = self.expr()
+        self.eat("{")
+        arms = []
+        while self.peek() != "}":
+            v = self.eat()
+            if v == "_":
+                pat = ["pwild"]
+            elif v == "Ok":
+                self.eat("(")
+                pat = ["pok", self.ident()]
+                self.eat(")")
+            elif v == "Err":
+                self.eat("("), self.eat("_"), self.eat(")")
+                pat = ["perr"]
+            else:
+                die("unsupported pattern starting with %r in a match on a Result" % v)
+            if self.peek() == "if":
+                die("match guards are not supported")
+            self.eat("=")
+            self.eat(">")
+            body = self.expr()
+            arms.append((pat, body))
+            if self.peek() == ",":
+                self.eat(",")
+            elif self.peek() != "}":
+                die("expected ',' or '}' after a match arm, got %r" % self.peek())
+        self.eat("}")
+        return ["match", scrut, arms]
+
     def primary(self):
         v = self.peek()
         if v == "Err":
@@ -225,6 +273,18 @@ class CP(L.LP):
 
 
 # ---------------------------------------------------------------- generation
+
+def rename(node, old, new):
+    """alpha-renaming of the variable `old` inside an AST fragment (var nodes are lists: renamed in place)"""
+    if isinstance(node, list) and len(node) == 2 and node[0] == "var" and node[1] == old:
+        node[1] = new
+        return
+    if isinstance(node, list) and node and node[0] == "let":
+        die("`let` inside a match arm that binds %s: not supported" % old)
+    if isinstance(node, (list, tuple)):
+        for x in node:
+            rename(x, old, new)
+
 
 class CG(L.Gen):
     """L.Gen + the bit-pattern operations on the primitive accumulator, Result, calls of sibling conversions."""
@@ -259,7 +319,13 @@ class CG(L.Gen):
             vs.append(v)
         self.calls.add(coq)
         x = self.tmp()
-        return pre + ["%s <- %s w N fuel pb ps %s ;;" % (x, coq, " ".join(vs))], x, sg["ret"]
+        ct = sg["tgt"]                                   # the callee is instantiated at the same primitive type
+        if (ct["conv"], ct.get("pbfix")) != (self.tgt["conv"], self.tgt.get("pbfix")):
+            self.die("call of %s: caller and callee treat the primitive type differently" % key)
+        inst = "" if ct.get("pbfix") else (" pb ps" if ct["conv"] == "bits" else " pb")
+        if sg["dbg"]:
+            self.uses_dbg = True
+        return pre + ["%s <- %s %sw N fuel%s %s ;;" % (x, coq, "dbg " if sg["dbg"] else "", inst, " ".join(vs))], x, sg["ret"]
 
     def ex(self, e, env):
         k = e[0]
@@ -365,6 +431,12 @@ class CG(L.Gen):
             return p, "(Some %s)" % v, ("option", t)
         if len(s) == 2 and s[0] == self.tgt["prim"]:
             return self.sibling("<%s>::%s" % s, list(args), env)
+        if "::".join(s) in self.tgt["calls"]:
+            return self.sibling("::".join(s), list(args), env)
+        if len(s) == 2 and s[0] == self.tgt.get("prim2") and s[1] == "try_from" and len(args) == 1:
+            p, v, t = self.ex(args[0], env)                   # uN::try_from(iN): Ok exactly for a non-negative value
+            L.unify(t, "PInt", "argument of %s::try_from" % s[0])
+            return p, "(NumConv.uN_try_from_iN %s)" % v, ("result", "PInt")
         if s == ("Signed", "is_negative") and len(args) == 1:
             p, v, t = self.ex(args[0], env)
             L.unify(t, "bint", "argument of Signed::is_negative")
@@ -389,6 +461,49 @@ class CG(L.Gen):
                     return pre + ["%s <- of_outcome (%s) ;;" % (x, call)], x, rty
                 return pre, call, rty
         return L.Gen.pcall(self, e, env)
+
+    def match_stmt(self, m, mk, rest, env, ctx, ind):
+        _, scrut, arms = m
+        save = self.ntmp
+        p, v, t = self.ex(scrut, env)
+        t = L.rs(t)
+        if not is_result(t):
+            self.ntmp = save
+            return L.Gen.match_stmt(self, m, mk, rest, env, ctx, ind)
+        if mk is not None or rest:
+            self.die("match on a Result: only as the tail of a block")
+        pad = "  " * ind
+        seen, out = [], []
+        inner = dict(ctx, protected=set(env.keys()) | ctx["protected"])
+        for pat, body in arms:
+            env2 = self.copy(env)
+            if len(seen) == 2:
+                self.die("unreachable arm in match")
+            if pat[0] == "pwild":
+                seen, head = ["Ok", "Err"], "_"
+            elif pat[0] == "perr":
+                if "Err" in seen:
+                    self.die("duplicate match arm Err")
+                seen.append("Err")
+                head = "Convert.Err"
+            else:
+                if "Ok" in seen:
+                    self.die("duplicate match arm Ok")
+                seen.append("Ok")
+                x = pat[1]
+                if x in L.RESERVED or x == "N":
+                    self.die("pattern variable name %s is reserved by the translator" % x)
+                if x in env2:                            # the pattern variable shadows (`Ok(int) => f(int)`): alpha-rename it in
+                    new = x + "'1"                       # its scope, the arm (`'` cannot occur in a Rust identifier); done once, in place
+                    rename(body, x, new)
+                    pat[1] = x = new
+                env2[x] = L.Var(t[1], False, True)
+                head = "Convert.Ok " + x
+            ss = body[1] if body[0] == "blockx" else [["expr", body]]
+            out.append(pad + "| %s => (\n%s\n%s  )" % (head, self.stmts(ss, env2, inner, ind + 2), pad))
+        if len(seen) != 2:
+            self.die("non-exhaustive match on a Result")
+        return self.lines(p + ["match %s with" % v], pad) + "\n" + "\n".join(out) + "\n" + pad + "end"
 
     def path(self, segs, env, node=None):
         if segs[0] == "Self" and self.selfty not in ("buint", "bint"):
@@ -458,6 +573,8 @@ def macro_body(txt, tgt):
                 if not am or am.group(1) != am.group(2):
                     die("%s: %s!: `%s` is not a pair iN -> uN of the same width" % (path, name, it))
                 it = "i" + am.group(1)
+            if tgt.get("others") and re.fullmatch(tgt["others"], it):
+                continue      # instantiations at non-integer types (bool, char): the callee is another impl there; not covered
             if not re.fullmatch(tgt["kinds"], it):
                 die("%s: macro %s is instantiated for types outside the modelled kind: %s" % (path, name, it))
     return braces(txt, mm.start(), path)
@@ -514,6 +631,7 @@ def parse_sig(tgt, generics, params, ret):
             return "PVal"
         return tuple(val(y) for y in x) if isinstance(x, tuple) else x
     sig["ret"] = val(rt)
+    sig["tgt"] = tgt
     return sig
 
 
@@ -533,6 +651,7 @@ def translate_one(tgt, fns, sigs, dsigs):
         txt = g.stmts(ast, env, ctx, 1)
     if g.recursive:
         die("fn %s: recursion is not supported here" % tgt["fn"])
+    sig["dbg"] = g.uses_dbg
     argl = " (pb : Z) (ps : bool)" if tgt["conv"] == "bits" else " (pb : Z)"
     if tgt.get("pbfix"):                                   # a fn for one concrete primitive type (from_u64): its width is a constant
         argl = ""
@@ -548,10 +667,11 @@ HEADER = ["(* GENERATED on every run by tools/rs2v_conv.py from /repo/src/{buint
           "   bnum integers and primitive integers).  Do not edit.  Proofs/ConvGenTie*.v prove each function equal to the hand-written model.",
           "   pb / ps = BITS / signedness of the primitive type the macro is instantiated at (instantiation lists checked by the translator).",
           "   Vocabulary: Model/Imp.v (control flow), Model/ImpConv.v (bit patterns of primitive integers), Prim.v, Model/LoopPrims.v;",
-          "   by qualified name from the hand model: Cast.p_of_bits (pattern -> value), Convert.result, Core.is_negative. *)",
+          "   by qualified name from the hand model: Cast.p_of_bits (pattern -> value), Convert.result, Core.is_negative / bitnot, Cast.from_bits,",
+          "   Convert.from_digits, NumConv.uN_try_from_iN, and the callees tied elsewhere: Convert.U_from_uint (from_uint!), Cast.U_from_int (as_buint!). *)",
           "From Bnum Require Import Base Prim.",
           "From Bnum.Model Require Import DigitPrims LoopPrims Core Imp ImpConv.",
-          "From Bnum.Model Require Cast Convert.",
+          "From Bnum.Model Require Cast Convert NumConv.",
           "From Bnum.Generated Require Import DigitGen.", "", "Module ConvGen.", ""]
 
 
